@@ -54,6 +54,9 @@ CHECKS = {
  "C02": ("model_checking", "E3", "explicit enumeration of ALL call histories up to a depth on one real Model per subject, with deep state snapshots and a reference-model oracle after every call",
          "For ~330 subjects (every registered operator as a single-node model under every caller-input / initializer role assignment, two producer->consumer compositions, the sample models) every sequence of depth <= 3 (thorough 4) over {Run(A), Run(B), Run(fresh A), failing Run (wrong rank), failing Run (missing input), Run with the previous state outputs fed back} is executed on a freshly loaded Model; after every call the outputs must equal the reference evaluation and be bit-identical to the first Run on the same values, and deep snapshots of both caller tensor sets, of every weight tensor (via the verif hook) and of the marshalled proto must equal load time.",
          "Trusted: the reference model evaluator; hx.Snapshot (shape, strides, dtype, flags, all element bits). Hook: Model.VerifParameters / VerifModelProto (build tag verif).", "DESIGN.md §3 C02"),
+ "C16": ("exploration", "E2/E1", "exhaustive enumeration of every batch composition (all sequences over a sample pool up to a length) for the sample models and generated per-sample models, executed by the real Model.Run and compared row by row with the solo evaluation",
+         "For 119 models (sample models; every 1- and 2-stage combination of per-sample operators; Conv 1-D/2-D; RNN/GRU/LSTM with/without states; the gru.onnx wrapping) EVERY batch over a pool of 3 (thorough 4) distinct samples of length 1..3 (1..4) - i.e. all batch sizes, permutations, sub-selections and repetitions up to the bound - is run; position i of each output must equal the output of evaluating that sample alone (N=1).",
+         "Trusted: stacking / row extraction of the harness (ref.Concat / ref.Slice). Differential oracle: the implementation's own N=1 result, as the property states.", "DESIGN.md §3 C16"),
 }
 NA_REASON = "check not built yet in this session (see DESIGN.md §7 order of construction); decidable by bounded exhaustive exploration, to be claimed once its explorer exists"
 def main():
